@@ -128,6 +128,16 @@ def locksStep (s : DrvState) (line : String) : DrvState × String :=
       | some h => let (t', g') := releaseByHandleWait s.t s.g h
                   ({ s with t := t', g := g' }, "ok | " ++ tableImg t' ++ " | " ++ graphImg g')
       | none => bad
+  -- end of a distributed transaction: handle loop + unconditional remove_transaction (current code)
+  | ["endtx", tx, hs] => match tx.toNat?, parseNats hs with
+      | some tx, some hs => let (t', g') := endTx s.t s.g tx hs
+                            ({ s with t := t', g := g' }, "ok | " ++ tableImg t' ++ " | " ++ graphImg g')
+      | _, _ => bad
+  -- the same with the PRE-FIX sequence (handle loop only)
+  | ["endtxold", tx, hs] => match tx.toNat?, parseNats hs with
+      | some tx, some hs => let (t', g') := endTxOld s.t s.g tx hs
+                            ({ s with t := t', g := g' }, "ok | " ++ tableImg t' ++ " | " ++ graphImg g')
+      | _, _ => bad
   | ["cleanw", now] => match now.toNat? with
       | some now => let (t', g', n) := cleanupExpiredWait s.t s.g now
                     ({ s with t := t', g := g' }, s!"{n} | " ++ tableImg t' ++ " | " ++ graphImg g')
